@@ -44,7 +44,7 @@ def check_cell(acc, a5, c, r, label):
         acc.violation(k + ':raises', f'raised {type(e).__name__}: {e}', case)
         return
     want = 4 * math.pi / rm.num_cells(r)
-    allow = 1e-6 + 8 * 5e-15 / sp.width(r)
+    allow = 1e-6 + 6.5e-15 / sp.width(r)
     if not settled:
         acc.n['not_settled_at_K_cap'] += 1
         allow += 2e-6          # the K sequence did not settle: only a coarser statement can be made
@@ -115,7 +115,7 @@ def run(tier, t0):
             'ring area at K, 4K, 16K(, 64K) segments per edge, Richardson-extrapolated; non-trivial = cells whose converged area met the bound')
     return common.finish(PID, LEVEL, tier, acc, t0, rule, [
         'ring vertices converted with the closed-form WGS84 authalic latitude (not the library series); area by the signed spherical-excess formula in difference form',
-        'allowance 1e-6 + 8*(5e-15 rad)/width(r): the second term is the numerical accuracy of the boundary coordinates (statement: "to within the numerical accuracy of the boundary"); measured noise on the unchanged tree is 1.6e-15/width (coverage.maxima.area_rel_err_r*), i.e. 25x below the allowance',
+        'allowance 1e-6 + (6.5e-15 rad)/width(r): the second term is the numerical accuracy of double-precision boundary coordinates (statement: "to within the numerical accuracy of the boundary"); measured noise on the unchanged tree is 1.6e-15/width (coverage.maxima.area_rel_err_r*), i.e. the allowance leaves 5x head-room at resolution 29',
         'the discretisation error of a K-segment ring decays as K^-2 (measured); the limit is extrapolated from the last two K',
     ], exhaustive=False)
 
